@@ -191,10 +191,21 @@ func genFragHistory(r *runner.Rand, o fragGenOptions) (*gfrag.History, string, b
 	if o.allowGap && len(cuts) > 0 && r.Chance(2, 25) {
 		gapAt = cuts[r.Intn(len(cuts))]
 		gap := uint64(r.PickInt(1, int(d), 5000, 1000000))
-		for i := gapAt; i < n; i++ {
-			samples[i].DecodeTime += gap
+		if back := samples[gapAt].DecodeTime - samples[0].DecodeTime; r.Chance(1, 3) && back > 0 {
+			// a backward jump (overlap / timestamp reset): later samples restart earlier
+			if gap > back {
+				gap = back
+			}
+			for i := gapAt; i < n; i++ {
+				samples[i].DecodeTime -= gap
+			}
+			label += " backjump"
+		} else {
+			for i := gapAt; i < n; i++ {
+				samples[i].DecodeTime += gap
+			}
+			label += " gap"
 		}
-		label += " gap"
 	}
 	var seg *gfrag.SegmentSpec
 	var fs *gfrag.FragmentSpec
